@@ -9,6 +9,8 @@ from .. import model, explore, refterm as rt
 from ..hist import build
 
 ID = 'C03'
+ASSUMPTIONS = ['base texts contain no ESC: rendering is in-band, a text ending in an unterminated control sequence swallows '
+               'the sequence the rendering appends (DESIGN section 8)', 'effective style = reduction of the reported settings by mc/refterm.py']
 
 
 def plan(tier):
